@@ -263,6 +263,9 @@ type Spec[T any] struct {
 	// while that finding has status "known": the case is then skipped and
 	// counted, so the search continues past a recorded defect.
 	Exclude func(c T) string
+
+	inflight *os.File
+	testName string
 }
 
 type replayFile struct {
@@ -308,7 +311,50 @@ func (s *Spec[T]) safeCheck(c T, r *Recorder) (err error) {
 			err = fmt.Errorf("panic: %v\n%s", p, trimStack(debug.Stack()))
 		}
 	}()
+	if s.inflight != nil {
+		s.markInflight(c)
+		defer s.clearInflight()
+	}
 	return s.Check(c, r)
+}
+
+// In-flight record: what recover() cannot catch - os.Exit / log.Fatal inside
+// the library, a stack overflow, "concurrent map writes" - ends the process in
+// the middle of a case.  The case being checked is therefore kept in a file
+// while Check runs; the driver turns a dead process with a non-empty in-flight
+// file into a violation with that file as the replay.
+func (s *Spec[T]) openInflight(t *testing.T) {
+	s.testName = t.Name()
+	dir := filepath.Join(outDir(), "inflight")
+	_ = os.MkdirAll(dir, 0o755)
+	f, err := os.OpenFile(filepath.Join(dir, fmt.Sprintf("%s.%s.%d.json", s.Prop, s.Name, shard())), os.O_RDWR|os.O_CREATE|os.O_TRUNC, 0o644)
+	if err == nil {
+		s.inflight = f
+	}
+}
+
+func (s *Spec[T]) markInflight(c T) {
+	raw, err := json.Marshal(c)
+	if err != nil {
+		return
+	}
+	doc, _ := json.Marshal(struct {
+		replayFile
+		Test string `json:"test"`
+	}{replayFile{Property: s.Prop, Sub: s.Name, Error: "the test process was terminated while this case was being checked", Case: raw}, s.testName})
+	_ = s.inflight.Truncate(0)
+	_, _ = s.inflight.WriteAt(doc, 0)
+}
+
+func (s *Spec[T]) clearInflight() { _ = s.inflight.Truncate(0) }
+
+func (s *Spec[T]) closeInflight() {
+	if s.inflight != nil {
+		name := s.inflight.Name()
+		_ = s.inflight.Close()
+		_ = os.Remove(name)
+		s.inflight = nil
+	}
 }
 
 func trimStack(b []byte) string {
@@ -361,6 +407,8 @@ func (s *Spec[T]) Run(t *testing.T, gen func(*rapid.T) T, quickN, thoroughN int)
 	r := newRecorder(s.Prop + "/" + s.Name)
 	start := time.Now()
 	defer func() { r.flush(s.Prop, s.Name, s.Rule, false, start) }()
+	s.openInflight(t)
+	defer s.closeInflight()
 	rapid.Check(t, func(rt *rapid.T) {
 		c := gen(rt)
 		if s.Exclude != nil {
@@ -383,6 +431,8 @@ func (s *Spec[T]) Enumerate(t *testing.T, exhaustive bool, each func(r *Recorder
 	r := newRecorder(s.Prop + "/" + s.Name)
 	start := time.Now()
 	defer func() { r.flush(s.Prop, s.Name, s.Rule, exhaustive, start) }()
+	s.openInflight(t)
+	defer s.closeInflight()
 	failed := false
 	each(r, func(c T) bool {
 		if s.Exclude != nil {
